@@ -333,6 +333,69 @@ theorem durOf_secondsText (n : Nat) :
     simp [durGo, this]
 
 
+/-! ### a whole literal; day counts -/
+
+theorem evalLiteral_qd (s : Str) : evalLiteral (qd s) = some s := by
+  have h := lexString_qd s []
+  simp only [List.append_nil] at h
+  unfold evalLiteral
+  rw [h]
+  show celstr (qd s) = some s
+  simp only [celstr, qd, q, List.drop_succ_cons, List.drop_zero, List.dropLast_concat]
+  exact decodeBody_qBody '"' (Or.inl rfl) s
+
+theorem ageSeconds_days (d : Int) (h0 : ¬ d < 0) (h : d.toNat * 86400 ≤ durMaxSeconds) :
+    ageSeconds (.atom (.int d)) = some (d.toNat * 86400) := by
+  simp [ageSeconds, h0, ageToDuration, secondsToDuration, evalLiteral_qd, durOf_secondsText, h]
+
+theorem ageSeconds_of_days (v : Val) (d : Nat) (h : Spec.daysOf v = some d) : ageSeconds v = some (d * 86400) := by
+  cases v with
+  | list xs => simp [Spec.daysOf] at h
+  | atom a =>
+    cases a with
+    | int i =>
+      by_cases hd : i < 0
+      · simp [Spec.daysOf, hd] at h
+      · by_cases hr : i.toNat * 86400 ≤ durMaxSeconds
+        · simp [Spec.daysOf, hd, hr] at h; subst h; exact ageSeconds_days i hd hr
+        · simp [Spec.daysOf, hd, hr] at h
+    | str _ => simp [Spec.daysOf] at h
+    | bool _ => simp [Spec.daysOf] at h
+    | null => simp [Spec.daysOf] at h
+
+
+/-! ### `split('.')` / join -/
+
+theorem splitOn_ne_nil (sep : Char) (s : Str) : splitOn sep s ≠ [] := by
+  induction s with
+  | nil => simp [splitOn]
+  | cons c tl ih =>
+    unfold splitOn
+    by_cases h : c = sep
+    · simp [h]
+    · simp only [h, if_false]; split <;> simp
+
+theorem join_splitOn (sep : Char) (s : Str) : joinWith [sep] (splitOn sep s) = s := by
+  induction s with
+  | nil => simp [splitOn, joinWith]
+  | cons c tl ih =>
+    have hne := splitOn_ne_nil sep tl
+    unfold splitOn
+    match hs : splitOn sep tl with
+    | [] => exact absurd hs hne
+    | w :: ws =>
+      rw [hs] at ih
+      by_cases h : c = sep
+      · subst h
+        simp only [if_true]
+        cases ws with
+        | nil => simp [joinWith] at ih ⊢; exact ih
+        | cons w2 ws => simp [joinWith] at ih ⊢; exact ih
+      · simp only [h, if_false]
+        cases ws with
+        | nil => simp [joinWith] at ih ⊢; exact ih
+        | cons w2 ws => simp [joinWith] at ih ⊢; exact ih
+
 /-! ### operator templates -/
 
 theorem expected_sound (o : Op) (r v : Val) : (expectedTmpl o).eval r v = Spec.rel o r v := by
